@@ -41,6 +41,8 @@ def generate(prop, rng, seed, index, tier):
                 if rng.random() < 0.3:
                     src['items'][k] = rng.choice([None, None, 0, ''])
         src['one_shot'] = rng.random() < 0.65
+        if src['one_shot'] and rng.random() < 0.5:
+            src['gen_like'] = True       # (the one-shot iterator has a close() method, as generators do)
     elif typ == 'textfile':
         src['delimiter'] = '\n'
         src['pre'] = ''
